@@ -557,6 +557,26 @@ pub fn check(opts: &CheckOpts) -> i32 {
                 break;
             }
         }
+        if !ok && desc.starts_with("different violation class=") {
+            // the fresh-process replay violates the property too, but in another way than recorded (typically a
+            // stall under load that is really a wrong result): re-label the replay file with what the replay shows
+            if let Some(mut rf) = read_replay(&v.replay) {
+                let new_class = desc["different violation class=".len()..].split_whitespace().next().unwrap_or("").to_string();
+                if !new_class.is_empty() && known.matches(prop, &new_class).is_none() {
+                    rf.class = new_class.clone();
+                    rf.detail = desc.clone();
+                    let _ = std::fs::write(&v.replay, serde_json::to_string_pretty(&rf).unwrap());
+                    let (o2, _d2) = replay_fresh(&v.replay, Duration::from_secs(opts.stall_secs.min(60)), opts.mem_cap);
+                    if o2 {
+                        let mut v2 = v.clone();
+                        v2.class = new_class;
+                        v2.detail = desc.clone();
+                        confirmed.push(v2);
+                        continue;
+                    }
+                }
+            }
+        }
         if ok {
             confirmed.push(v.clone());
         } else if uncontrolled {
